@@ -10,10 +10,12 @@ usage: archive_seed.py C03 1
 import json, os, re, shutil, subprocess, sys
 
 pid, k = sys.argv[1], sys.argv[2]
-src = f"/tmp/seed_out/{pid}"
-dst = f"/verif/seeded/{pid}-{k}"
+srcroot = sys.argv[sys.argv.index("--src") + 1] if "--src" in sys.argv else "/tmp/seed_out"
+src = f"{srcroot}/{pid}"
+as_k = sys.argv[sys.argv.index("--as") + 1] if "--as" in sys.argv else k
+dst = f"/verif/seeded/{pid}-{as_k}"
 reuse = "--reuse-tests" in sys.argv and os.path.exists(f"{dst}/meta.json")
-r = subprocess.run(["/venv/bin/python", "/verif/tools/verify_seed.py", pid, k] + ([] if reuse else ["--tests"]), capture_output=True, text=True)
+r = subprocess.run(["/venv/bin/python", "/verif/tools/verify_seed.py", pid, k, "--src", srcroot] + ([] if reuse else ["--tests"]), capture_output=True, text=True)
 res = json.loads(r.stdout)
 if reuse:
     old = json.load(open(f"{dst}/meta.json"))["what_was_run"]["pinned_tests_with_change"]
@@ -26,7 +28,7 @@ for line in notes.splitlines():
         break
 ok = res["demo_clean_rc"] == 0 and res["demo_changed_rc"] != 0 and res["applies"] and res.get("tests_passing") == 254
 meta = {
-    "seed": f"{pid}-{k}",
+    "seed": f"{pid}-{as_k}",
     "property": pid,
     "files_changed": sorted(set(re.findall(r"^\+\+\+ b/(.*)$", open(f"{src}/change{k}.diff").read(), re.M))),
     "needs_to_manifest": need,
@@ -49,4 +51,4 @@ shutil.copy(f"{src}/demo{k}.py", f"{dst}/demo.py")
 if notes:
     open(f"{dst}/notes.md", "w").write(notes)
 json.dump(meta, open(f"{dst}/meta.json", "w"), indent=1)
-print(f"{pid}-{k} confirmed={ok} tests={res.get('tests_passing')} fired={sorted(res['checks_fired'])}")
+print(f"{pid}-{as_k} confirmed={ok} tests={res.get('tests_passing')} fired={sorted(res['checks_fired'])}")
